@@ -24,7 +24,10 @@ import (
 	"time"
 
 	"git.torproject.org/pluggable-transports/snowflake.git/v2/common/event"
+	"git.torproject.org/pluggable-transports/snowflake.git/v2/common/messages"
+	"git.torproject.org/pluggable-transports/snowflake.git/v2/common/util"
 	vh "git.torproject.org/pluggable-transports/snowflake.git/v2/common/zzverif"
+	"github.com/pion/webrtc/v3"
 )
 
 func TestVerifC20Proxy(t *testing.T) {
@@ -182,5 +185,92 @@ func TestVerifC20Proxy(t *testing.T) {
 		currentNATType = NATUnknown
 		currentNATTypeAccess.Unlock()
 		r.Case("proxy/nat-type", "readers vs store", true)
+	}
+
+	// 4b. the REAL checkNATType against a local stand-in for the probe service (an in-process pion answerer),
+	// with the stored type reset to "unknown" before each measurement so that its result differs from the
+	// stored value, while the poll loop's readers keep going
+	{
+		var pcs []*webrtc.PeerConnection
+		var pmu sync.Mutex
+		probe := httptest.NewServer(http.HandlerFunc(func(w http.ResponseWriter, rq *http.Request) {
+			body, _ := ioutil.ReadAll(rq.Body)
+			offerStr, _, err := messages.DecodePollResponse(body)
+			if err != nil {
+				http.Error(w, err.Error(), http.StatusBadRequest)
+				return
+			}
+			offer, err := util.DeserializeSessionDescription(offerStr)
+			if err != nil {
+				http.Error(w, err.Error(), http.StatusBadRequest)
+				return
+			}
+			pc, err := webrtc.NewPeerConnection(webrtc.Configuration{})
+			if err != nil {
+				http.Error(w, err.Error(), http.StatusInternalServerError)
+				return
+			}
+			pmu.Lock()
+			pcs = append(pcs, pc)
+			pmu.Unlock()
+			done := webrtc.GatheringCompletePromise(pc)
+			if pc.SetRemoteDescription(*offer) != nil {
+				http.Error(w, "remote description", http.StatusInternalServerError)
+				return
+			}
+			answer, err := pc.CreateAnswer(nil)
+			if err != nil || pc.SetLocalDescription(answer) != nil {
+				http.Error(w, "answer", http.StatusInternalServerError)
+				return
+			}
+			<-done
+			sdp, _ := util.SerializeSessionDescription(pc.LocalDescription())
+			resp, _ := messages.EncodeAnswerRequest(sdp, "probe")
+			w.Write(resp)
+		}))
+		stop := make(chan struct{})
+		var readers sync.WaitGroup
+		for g := 0; g < 2; g++ {
+			readers.Add(1)
+			go func() {
+				defer readers.Done()
+				for {
+					select {
+					case <-stop:
+						return
+					default:
+						_ = getCurrentNATType()
+						time.Sleep(200 * time.Microsecond)
+					}
+				}
+			}()
+		}
+		sf := &SnowflakeProxy{}
+		for k := 0; k < r.N(2, 6); k++ {
+			currentNATTypeAccess.Lock()
+			currentNATType = NATUnknown
+			currentNATTypeAccess.Unlock()
+			t0 := time.Now()
+			fin := make(chan struct{})
+			go func() { defer close(fin); sf.checkNATType(webrtc.Configuration{}, probe.URL) }()
+			select {
+			case <-fin:
+			case <-time.After(60 * time.Second):
+				r.OracleFail("nat-measurement-does-not-return", "checkNATType against a local probe", "still running after 60 s", "the measurement ends at its 20 s data-channel timeout at the latest")
+			}
+			time.Sleep(20 * time.Millisecond)
+			r.Case("proxy/nat-measurement", fmt.Sprintf("real checkNATType %d against a local probe: stored %q after %v", k, getCurrentNATType(), time.Since(t0).Round(10*time.Millisecond)), true)
+		}
+		close(stop)
+		readers.Wait()
+		probe.Close()
+		pmu.Lock()
+		for _, pc := range pcs {
+			pc.Close()
+		}
+		pmu.Unlock()
+		currentNATTypeAccess.Lock()
+		currentNATType = NATUnknown
+		currentNATTypeAccess.Unlock()
 	}
 }
